@@ -44,7 +44,7 @@ func setupProcess() {
 		}
 		os.RemoveAll(dir)
 	}
-	log.SetOutput(io.Discard)
+	log.SetOutput(fatalFilter{})
 	raft.SetLogger(&raft.DefaultLogger{Logger: log.New(io.Discard, "", 0)})
 	os.RemoveAll(pidDir())
 	os.MkdirAll(pidDir(), 0o750)
@@ -376,4 +376,24 @@ func runInChild(env *core.Env, c *core.Case) (sig, msg string, died bool, err er
 		msg = "server process died: " + string(m)
 	}
 	return sig, msg, true, nil
+}
+
+// fatalFilter is where the standard logger writes: the chatter of raftexample
+// and the apply loop is dropped, anything else (the text of a log.Fatal, which
+// exits the process right after) goes to stderr so that the driver can show
+// why a node died.
+type fatalFilter struct{}
+
+var logNoise = []string{"replaying WAL of member", "loading WAL at term", "publishing snapshot", "finished publishing snapshot",
+	"start snapshot", "compacted log at", "cluster commitC", "TLL fires", "TTL canceled", "I've been removed"}
+
+func (fatalFilter) Write(p []byte) (int, error) {
+	str := string(p)
+	for _, n := range logNoise {
+		if strings.Contains(str, n) {
+			return len(p), nil
+		}
+	}
+	os.Stderr.WriteString("node log: " + str)
+	return len(p), nil
 }
